@@ -242,6 +242,54 @@ def _ob_section_dict(op: int, ki: int, kind: int, v: int, s: int) -> bool:
     return True
 
 
+# ---------------------------------------------------------------------------
+# 4. optional property attributes: what is set is what is read; a value of the
+#    wrong type is refused and leaves the attribute (and the values) unchanged
+# ---------------------------------------------------------------------------
+OPT_ATTRS = [("definition", "str"), ("unit", "unit"), ("uncertainty", "num"), ("reference", "str"),
+             ("dependency", "str"), ("dependency_value", "str"), ("value_origin", "str")]
+
+
+def _ob_optional_attrs(ai: int, vi: int, wi: int) -> bool:
+    """
+    pre: 0 <= ai < 7 and 0 <= vi < 6 and 0 <= wi < 6
+    post: __return__
+    """
+    f, sec = _sec()
+    p = sec.create_property("p", [1, 2])
+    attr, kind = _pick(OPT_ATTRS, ai)
+    cands = ["text", "", None, 5, 2.5, ["x"]]
+    for sel in (vi, wi):                      # two assignments in a row
+        val = _pick(cands, sel)
+        before = getattr(p, attr)
+        if kind == "num":
+            ok = val is None or isinstance(val, (int, float))
+            want = None if (val is None or not ok) else float(val)
+        elif kind == "unit":
+            ok = val is None or isinstance(val, str)
+            want = None if (val is None or val == "") else val
+        else:
+            ok = val is None or isinstance(val, str)
+            want = val
+        try:
+            setattr(p, attr, val)
+            accepted = True
+        except Exception:  # noqa  any refusal (the statement does not fix the exception type here)
+            accepted = False
+        if accepted != ok:
+            return False
+        got = sec.props["p"]
+        now = getattr(got, attr)
+        if accepted:
+            if not (now == want or (want == "" and now in ("", None))):
+                return False
+        elif now != before:
+            return False
+        if list(got.values) != [1, 2] or got.name != "p":
+            return False
+    return True
+
+
 def validate():
     """shim used for property.py: array/shape behave like NumPy on plain lists"""
     import numpy as np
@@ -296,6 +344,11 @@ OBLIGATIONS = [
        replay=lambda a: _real("_ob_assign_extend", a)),
     Ob("clear_keeps_type", _ob_clear, timeout=600, partition=["none", "empty", "delete"],
        functions=[_P + "delete_values", _P + "values"], replay=lambda a: _real("_ob_clear", a)),
+    Ob("optional_attributes", _ob_optional_attrs, timeout=900,
+       functions=[_P + "unit", _P + "uncertainty", _P + "definition", _P + "reference",
+                  _P + "dependency", _P + "dependency_value", _P + "value_origin"],
+       replay=lambda a: _real("_ob_optional_attrs", a),
+       outside="odml_type (an enum with its own compatibility rule)"),
     Ob("section_dict_access", _ob_section_dict, timeout=900,
        functions=["nixio.section.Section.__getitem__", "nixio.section.Section.__setitem__",
                   "nixio.section.Section.__delitem__", "nixio.section.Section.__contains__",
